@@ -432,20 +432,20 @@ impl Engine for RegexEngine {
             return n;
         }
         let shift = shift_of(ctx.seed);
-        let n = 1 + families(self.kind, ctx.tier).iter().map(|f| num_chunks(f.len(), shift)).sum::<usize>();
+        let n = XV_NB + families(self.kind, ctx.tier).iter().map(|f| num_chunks(f.len(), shift)).sum::<usize>();
         NUM_BATCHES.with(|c| c.borrow_mut().insert(key, n));
         n
     }
 
     fn run_batch(&self, ctx: &Ctx, batch: usize, rep: &mut Report) {
         clear_current_case();
-        if batch == 0 {
-            // machinery self-check: the two reference semantics agree
-            cross_validate(rep);
+        if batch < XV_NB {
+            // machinery self-check: the two reference semantics agree (split over XV_NB batches)
+            cross_validate(rep, batch, XV_NB);
             return;
         }
         let shift = shift_of(ctx.seed);
-        let mut b = batch - 1;
+        let mut b = batch - XV_NB;
         // the families are built once per worker process
         FAMILIES.with(|cell| {
             let mut g = cell.borrow_mut();
@@ -497,6 +497,14 @@ impl Engine for RegexEngine {
 
     fn hang_is_violation(&self, _prop: &str) -> bool {
         matches!(self.kind, Kind::C02 | Kind::C04 | Kind::C05 | Kind::C19)
+    }
+    fn max_group(&self, _ctx: &Ctx, batch: usize) -> usize {
+        // the reference cross-validation slices are heavy: one per worker
+        if batch < XV_NB {
+            1
+        } else {
+            usize::MAX
+        }
     }
 }
 
@@ -1544,7 +1552,9 @@ fn check_c03(ch: &mut Chunk<'_>, t: RegLan, rf: &Dfa, shallow: bool, rep: &mut R
 // ---------------------------------------------------------------------------------------------
 // cross-validation of the two reference semantics (machinery self-check, batch 0 of every regex run)
 
-pub fn cross_validate(rep: &mut Report) {
+pub const XV_NB: usize = 12;
+
+pub fn cross_validate(rep: &mut Report, part: usize, parts: usize) {
     let fam = core_thorough();
     let u = fam.universe().clone();
     let mut cache = RefCache::new(u.clone());
@@ -1572,6 +1582,7 @@ pub fn cross_validate(rep: &mut Report) {
     let mut progs: Vec<P> = idx.iter().map(|&i| fam.get(i)).collect();
     progs.extend((0..side.len()).step_by(41).map(|i| side.get(i)));
     let mut bad = 0u64;
+    let progs: Vec<P> = progs.into_iter().enumerate().filter(|(i, _)| i % parts == part).map(|(_, p)| p).collect();
     for p in &progs {
         beat();
         let d = cache.dfa(p);
